@@ -145,15 +145,37 @@ def maxmsgsize_limit(h):
     """MAXMSGSIZE = limit: a frame of exactly `limit` bytes is accepted (or awaited), limit+1 is
     refused before its body is buffered; for every limit >= 0 and every announced length."""
     srv = h.choose(2, "is_server") == 1
+    # where the oversized frame arrives: 0 Data phase of a ZMTP/3 session, 1 Data phase of a ZMTP/2.0 session,
+    # 2 before the peer's READY (ZMTP/3 NULL), 3 before the peer's HELLO/WELCOME (ZMTP/3 PLAIN)
+    stages = h.params.get("stages", [0, 1, 2, 3])
+    stage = stages[h.choose(len(stages), "stage")]
     limit = h.bvar("limit", 64)
     h.assume(limit >= 28)           # the handshake's own READY frame (28 bytes) must fit; smaller limits: Kani parser harnesses
-    eng = mk_engine(h, srv, mk_config(h, socket_type_name=string("PULL"), max_msg_size=limit))
+    h.assume(z3.ULT(limit, z3.BitVecVal(1 << 63, 64)))          # the option is an i64 >= 0
+    kw = dict(socket_type_name=string("PULL"), max_msg_size=limit)
+    if stage == 3:
+        kw.update(security_enabled=True, use_plain=True, plain_username_for_engine=some(Seq("string", list(b"u"))),
+                  plain_password_for_engine=some(Seq("string", list(b"p"))))
+    eng = mk_engine(h, srv, mk_config(h, **kw))
     start(h, eng)
-    feed(h, eng, greeting_v3(b"NULL", 0 if srv else 1) + ready_frame(b"PUSH"))
-    h.check(phase(h, eng) == "Data", "c07.setup.data-phase-reached")
+    if stage == 0:
+        feed(h, eng, greeting_v3(b"NULL", 0 if srv else 1) + ready_frame(b"PUSH"))
+        h.check(phase(h, eng) == "Data", "c07.setup.data-phase-reached")
+    elif stage == 1:
+        feed(h, eng, SIG + [1, 8, 0, 0])
+        h.check(phase(h, eng) == "Data", "c07.setup.v2-data-phase-reached")
+    elif stage == 2:
+        feed(h, eng, greeting_v3(b"NULL", 0 if srv else 1))
+        h.check(phase(h, eng) == "Ready", "c07.setup.ready-phase-reached")
+    else:
+        feed(h, eng, greeting_v3(b"PLAIN", 0 if srv else 1))
+        h.check(phase(h, eng) == "Security", "c07.setup.security-phase-reached")
+    h.cover(f"c07.maxmsgsize.stage-{stage}")
     long = h.choose(2, "long_header") == 1
     flags = h.byte("flags")
     h.assume((flags & 0xFA) == 0 if not long else (flags & 0xF8) == 2)
+    if stage == 1:
+        h.assume((flags & 0x04) == 0)      # ZMTP/2.0 has no command frames: such a frame is refused for that reason, whatever its size
     if long:
         lb = h.bytes("lenbytes", 8)
         hdr = [flags] + lb
@@ -168,7 +190,9 @@ def maxmsgsize_limit(h):
     too_big = z3.UGT(ln, limit)
     refused = any(a.vname == "PeerError" for a in acts)
     if refused:
-        h.check(too_big, "c07.maxmsgsize.frame-within-limit-refused")
+        if stage in (0, 1):
+            h.check(too_big, "c07.maxmsgsize.frame-within-limit-refused")
+        # (during the handshake a complete zero-length non-command frame is refused for a different, valid reason)
         h.check(phase(h, eng) == "Closed", "c07.maxmsgsize.refusal-closes")
         h.cover("c07.maxmsgsize.limit-plus-one-refused", ln == limit + 1)
     else:
@@ -176,6 +200,33 @@ def maxmsgsize_limit(h):
         h.cover("c07.maxmsgsize.exact-limit-accepted", ln == limit)
         acc = efield(h, eng, "network_read_accumulator")
         h.check(len(acc.f) <= 9, "c07.maxmsgsize.header-only-buffered")
+
+
+def replay_maxmsgsize_limit(model, params, role):
+    ch = dict(map(tuple, model.get("_choices", [])))
+    srv = ch.get("is_server", 0) == 1
+    stages = params.get("stages", [0, 1, 2, 3])
+    stage = stages[ch.get("stage", 0)]
+    limit = int(model.get("limit", 28))
+    flags = int(model.get("flags", 0))
+    if ch.get("long_header", 0):
+        lb = model.get("lenbytes", "")
+        lb = bytes.fromhex(lb) if isinstance(lb, str) else bytes(lb)
+        hdr = bytes([flags]) + lb.ljust(8, b"\0")
+    else:
+        hdr = bytes([flags, int(model.get("len8", 0))])
+    setup = {0: greeting_v3(b"NULL", 0 if srv else 1) + ready_frame(b"PUSH"), 1: SIG + [1, 8, 0, 0],
+             2: greeting_v3(b"NULL", 0 if srv else 1), 3: greeting_v3(b"PLAIN", 0 if srv else 1)}[stage]
+    eng = f"engine {'server' if srv else 'client'} type=PULL maxmsg={limit}" + (" security=1 plain_user=75 plain_pass=70" if stage == 3 else "")
+    script = "\n".join([eng, "start", "feed " + bytes(setup).hex(), "feed " + hdr.hex(), "phase", ""])
+    def closed(out):
+        ph = [l for l in out.splitlines() if l.startswith("phase")]
+        return bool(ph) and "Closed" in ph[-1]
+    if "oversized-frame-not-refused" in role:
+        return script, (lambda out: not closed(out) and "PANIC" not in out), f"MAXMSGSIZE={limit}, stage {stage}: a header announcing more than the limit; expecting the engine NOT to refuse it"
+    if "frame-within-limit-refused" in role:
+        return script, closed, f"MAXMSGSIZE={limit}, stage {stage}: a header announcing a frame within the limit; expecting a refusal"
+    return script, (lambda out: "PANIC" in out), "expecting a panic"
 
 
 def replay_generic(model, params, role, setup_lines):
